@@ -261,6 +261,24 @@ pub fn generate(kind: &str, seed: u64, run: u64, thorough: bool) -> Scenario {
             docs.push(MVal::Obj(fields));
         }
     }
+    // keys that contain a dot: the same logical document in every representation, and no
+    // representation may resolve such a key differently from the others
+    if kind == "backends" {
+        let ks = gen::key_set(&yaml);
+        let dotted: Vec<&String> = ks.root_keys.iter().filter(|k| k.contains('.') && !k.contains('[')).collect();
+        if !dotted.is_empty() {
+            for d in docs.iter_mut() {
+                if dr.chance(1, 4) {
+                    if let MVal::Obj(f) = d {
+                        let k = (*dr.pick(&dotted)).clone();
+                        if !f.iter().any(|(kk, _)| *kk == k) {
+                            f.push((k, MVal::Str((*dr.pick(&["foo", "bar", "1", "foobar", "x"])).to_owned())));
+                        }
+                    }
+                }
+            }
+        }
+    }
     // array iteration orders owned by the simulator
     let mut orders = vec![];
     if let Some(d0) = docs.first() {
